@@ -147,20 +147,39 @@ impl Analyzer
 		identifier: Identifier,
 	) -> Result<Identifier, Error>
 	{
-		self.declare_variable(identifier)
-			.map_err(|error| match error
-			{
-				Error::DuplicateDeclarationVariable {
-					name,
-					location,
-					previous,
-				} => Error::DuplicateDeclarationMember {
-					name,
-					location,
-					previous,
-				},
-				error => error,
+		// Members are only ever named through their structure, so only
+		// another member of the same structure can be a duplicate
+		// (not a constant that happens to have the same name).
+		let previous = self
+			.variable_stack
+			.last()
+			.and_then(|scope| scope.iter().find(|x| x.name == identifier.name))
+			.map(|x| x.location.clone());
+
+		let identifier = Identifier {
+			resolution_id: self.resolution_id,
+			is_authoritative: true,
+			..identifier
+		};
+		self.resolution_id += 1;
+
+		{
+			let scope = self.variable_stack.last_mut().unwrap();
+			scope.push(identifier.clone());
+		}
+
+		if let Some(previous) = previous
+		{
+			Err(Error::DuplicateDeclarationMember {
+				name: identifier.name.clone(),
+				location: identifier.location.clone(),
+				previous,
 			})
+		}
+		else
+		{
+			Ok(identifier)
+		}
 	}
 
 	fn declare_variable(
